@@ -445,6 +445,31 @@ func (pc *PartitionContext) removeApplication(appID string) []*objects.Allocatio
 	return allocations
 }
 
+// reverseInflightReplacements reverses the inflight replacement of placeholders that are removed by anything else
+// than the confirmation of that replacement (release by the RM, timeout). The real allocation is unlinked, removed
+// from its node if it was placed on another node than the placeholder, and the ask is made pending again.
+func (pc *PartitionContext) reverseInflightReplacements(app *objects.Application, removed []*objects.Allocation) {
+	for _, alloc := range removed {
+		release := alloc.GetRelease()
+		if !alloc.IsPlaceholder() || release == nil {
+			continue
+		}
+		release.ClearRelease()
+		alloc.ClearRelease()
+		if release.GetNodeID() != alloc.GetNodeID() {
+			if node := pc.GetNode(release.GetNodeID()); node != nil {
+				node.RemoveAllocation(release.GetAllocationKey())
+			}
+		}
+		// the ask might have been removed already: nothing to reschedule in that case
+		if _, err := app.DeallocateAsk(release.GetAllocationKey()); err != nil {
+			log.Log(log.SchedPartition).Debug("inflight replacement reversed for an ask that is already removed",
+				zap.String("appID", app.ApplicationID),
+				zap.String("allocationKey", release.GetAllocationKey()))
+		}
+	}
+}
+
 // removeInflightReplacements cleans up the real allocations of inflight placeholder replacements. A replacement
 // on a different node than the placeholder is registered on that node only, until the shim confirms the release of
 // the placeholder. When the placeholders are removed with the application that confirmation never comes.
@@ -1538,6 +1563,10 @@ func (pc *PartitionContext) removeAllocation(release *si.AllocationRelease) ([]*
 
 	released := pc.processAllocationRelease(release, app)
 	pc.updatePhAllocationCount(released)
+	// a placeholder that is removed without its replacement being confirmed leaves the replacement half done
+	if release.TerminationType != si.TerminationType_PLACEHOLDER_REPLACED {
+		pc.reverseInflightReplacements(app, released)
+	}
 
 	total := resources.NewResource()
 	totalPreempting := resources.NewResource()
